@@ -1,5 +1,6 @@
 import TruthModel.Model.Abi
 import TruthModel.Driver.Sexp
+import TruthModel.Driver.C12Parts
 /- Driver glue for C12: S-expression case -> `TruthModel.Abi` -> canonical result (the format of
 `harness/src/props/c12.rs`).  Trusted glue, no theorem depends on it. -/
 namespace TruthModel.Driver.C12
@@ -145,6 +146,8 @@ def handle (case : Sexp) : Sexp :=
   | some "call" | some "mutate" | some "call17" => handleCall case
   | some "blob" => handleBlob case
   | some "sig" => handleSig case
+  | some "parts" => Driver.C12Parts.handleParts case
+  | some "cstr" => Driver.C12Parts.handleCstr case
   | _ => .atom "bad-case"
 
 end TruthModel.Driver.C12
